@@ -24,7 +24,7 @@ MANIFEST_INFO = {
     "engine": "D",
     "design_ref": "DESIGN.md section 5, C15",
     "technique": "exhaustive enumeration of Spinner.run histories (function shape x firing time relative to the timeout x leftovers x signal handlers x 1-3 runs per Spinner) on the real SelectReactor under a virtual clock; tie order of simultaneous calls and the instant of an external interrupt are chooser choice points explored by stateless DFS; timeline reference model",
-    "level_text": "Every 1- and 2-run history over 21 function shapes (5 signal/stop-wrapper configurations for single runs) (return/raise/Deferred firing or failing before, at, after the timeout or never/stop requested by the function/a slow callback overrunning both the timeout and a later stop request/re-entry on the same and through a second Spinner) x 5 leftover shapes x clear_junk or not (timeout 2; single runs also with timeouts 0 and 1), 2- and 3-run histories in which the Deferred of a run that ended without it fires or fails before the next run starts or half a time unit into it, and every 3-run history over a reduced alphabet, is executed on one Spinner (on the virtual-time SelectReactor; result shapes x 0-4 leftover calls x selectables also on a task.Clock-based reactor) with every tie order and every interrupt instant (<=1 per run); result, exception type, junk accounting, reactor cleanliness, reactor.stop identity and the three signal handlers are checked against the model after every run.",
+    "level_text": "Every 1- and 2-run history over 23 function shapes (5 signal/stop-wrapper configurations for single runs) (return/raise/Deferred firing or failing before, at, after the timeout or never/stop requested by the function/a slow callback overrunning both the timeout and a later stop request/re-entry on the same and through a second Spinner) x 5 leftover shapes x clear_junk or not (timeout 2; single runs also with timeouts 0 and 1), 2- and 3-run histories in which the Deferred of a run that ended without it fires or fails before the next run starts or half a time unit into it, and every 3-run history over a reduced alphabet, is executed on one Spinner (on the virtual-time SelectReactor; result shapes x 0-4 leftover calls x selectables also on a task.Clock-based reactor) with every tie order and every interrupt instant (<=1 per run); result, exception type, junk accounting, reactor cleanliness, reactor.stop identity and the three signal handlers are checked against the model after every run.",
     "level_note": "The real reactor code runs on a virtual clock (seconds()/doIteration() overridden): the installed wall-clock global reactor is not used because the relative order of 'Deferred fires' and 'timeout fires' could not be owned there. Interrupts are delivered between reactor iterations (every distinct instant), not between two calls due at the same instant.",
 }
 
@@ -57,7 +57,7 @@ KINDS = (
     + [("fire", d) for d in (0, 1, 2, 3)]
     + [("fail", d) for d in (0, 1, 2, 3)]
     + [("stop", d) for d in (1, 2, 3)]
-    + [("firestop", 1), ("failstop", 1), ("busy_stop",), ("crash", 1), ("fire_cancelall", 1)]
+    + [("firestop", 1), ("failstop", 1), ("busy_stop",), ("crash", 1), ("fire_cancelall", 1), ("stopfire", 1), ("stopfail", 1)]
 )
 EXTRAS = ("none", "junk_before", "junk_after", "selectable", "junk_after+selectable")
 SMALL_KINDS = [("ret",), ("fire", 1), ("fail", 1), ("fire", 3), ("stop", 1)]
@@ -152,6 +152,19 @@ def make_function(reactor, spinner, spec, rec, run_index, timeout=None):
             d = rec.deferred = defer.Deferred()
             rec.calls.append(reactor.callLater(kind[1], d.errback, FnError("run%d" % run_index)))
             return d
+        if k in ("stopfire", "stopfail"):
+            # one delayed call asks the reactor to stop and THEN delivers the result: the stop came first
+            d = rec.deferred = defer.Deferred()
+
+            def stop_then_deliver():
+                reactor.stop()
+                if k == "stopfire":
+                    d.callback(("value", run_index))
+                else:
+                    d.errback(FnError("run%d" % run_index))
+
+            rec.calls.append(reactor.callLater(kind[1], stop_then_deliver))
+            return d
         if k in ("firestop", "failstop"):
             # one delayed call delivers the result and THEN asks the reactor to stop: the result is in
             d = rec.deferred = defer.Deferred()
@@ -234,8 +247,13 @@ def model_outcomes(spec, run_index, interrupt_at):
         if kind[1] == 0:
             return {err}
         events.append(((kind[1], 0), err))
-    if k in ("stop", "crash"):
+    if k in ("stop", "crash", "stopfire", "stopfail"):
         events.append(((kind[1], 0), ("raised", "NoResultError", None)))
+        if k in ("stopfire", "stopfail") and kind[1] == TIMEOUT:
+            # (due at the very instant of the timeout: when the timeout's call runs first, the run is
+            # over - no longer spinning - by the time the stop request and the result arrive in that
+            # same reactor pass, and the result is the function's own)
+            events.append(((kind[1], 0), val if k == "stopfire" else err))
     events.append(((TIMEOUT, 0), ("raised", "TimeoutError", None)))
     if k == "busy_stop" and interrupt_at is not None:
         # (the clock is no guide to what came first once a callback has overrun the timeout)
@@ -311,6 +329,12 @@ def execute(scenario, chooser):
                 reactor.stop = app_stop
                 real_stop = app_stop
             fn = make_function(reactor, spinner, spec, rec, idx)
+            if spec[0] == ("never",):
+                # (not every callable is a function with a name: a functools.partial has neither
+                # __name__ nor __qualname__)
+                import functools
+
+                fn = functools.partial(fn)
             if during is not None:
                 fn = _with_late_firing(reactor, fn, during)
             prev = rec
@@ -321,6 +345,8 @@ def execute(scenario, chooser):
                 o = observe(lambda: spinner.run(TIMEOUT, lambda *a, **kw: fn() if (a, kw) == ((1,), {"f": 2, "d": 3}) else ("arguments", a, kw), 1, f=2, d=3))
             else:
                 o = observe(lambda: spinner.run(TIMEOUT, fn))
+            if reactor.blocked_forever:
+                problems.append(("hang", "run %d %r: the reactor was left spinning with %s" % (idx, spec, reactor.blocked_forever)))
             interrupt_at = None
             for e in reactor.log:
                 if e[0] == "SIGINT":
